@@ -22,7 +22,7 @@ from concurrent.futures import ThreadPoolExecutor
 sys.path.insert(0, os.path.dirname(os.path.abspath(__file__)))
 import vlib
 
-TOOLVER = "asmkern-4"
+TOOLVER = "asmkern-5"
 X86 = "mpn/x86_64"
 SKIP_DIRS = {"fat"}
 
@@ -96,8 +96,13 @@ def classify_insn(mn, ops):
     if mn in BASE: return None, True
     return None, False
 
-def isa_of(obj):
+def isa_simd_of(obj):
     rc, out, err = sh(["objdump", "-d", "--no-show-raw-insn", obj])
+    a, b = isa_of(obj, out)
+    return a, b, bool(re.search(r"%[xyz]mm\d", out))
+
+def isa_of(obj, out=None):
+    if out is None: rc, out, err = sh(["objdump", "-d", "--no-show-raw-insn", obj])
     need, unknown = set(), set()
     for ln in out.split("\n"):
         f = ln.split("\t")
@@ -169,7 +174,7 @@ def assemble_raw(build, rel, rules, inc_h, cdir):
         r["plain"] = False
         if not r["funcs"]:       # entry point not renamed by asm-defs.m4 (k8only/lshift3..6): the plain symbol mpn_<fn>
             r["funcs"] = sorted(s[len("mpn_"):] for s in r["defined"] if s.startswith("mpn_")); r["plain"] = bool(r["funcs"])
-        r["isa"], r["isa_unknown"] = isa_of(obj)
+        r["isa"], r["isa_unknown"], r["simd"] = isa_simd_of(obj)
         r["obj"] = obj
     json.dump(r, open(meta, "w"))
     return r
@@ -191,7 +196,7 @@ class Kernel:
         self.idx = idx; self.path = d["path"]; self.dir = os.path.dirname(d["path"])[len(X86):].lstrip("/") or "."
         self.error = d.get("error"); self.raw = d.get("obj"); self.key = d["key"]; self.cmd = d["cmd"]
         self.plain = d.get("plain", False); self.funcs = d.get("funcs", []); self.defined = d.get("defined", []); self.undefined = d.get("undefined", [])
-        self.isa = d.get("isa", []); self.isa_unknown = d.get("isa_unknown", [])
+        self.isa = d.get("isa", []); self.isa_unknown = d.get("isa_unknown", []); self.simd = d.get("simd", False)
         self.missing = [f for f in self.isa if f not in host_flags()]
         self.prefix = "k%d_" % idx; self.obj = None
     @property
@@ -241,6 +246,7 @@ def harness_hash():
     return h.hexdigest()
 
 CC_BASE = "gcc -O1 -g -w -ffunction-sections -fdata-sections -DHAVE_CONFIG_H"
+ALIGN_C = os.path.join(os.path.dirname(os.path.abspath(__file__)), "asmkern_align.c")      # allocation-alignment control (C14_ALIGN) for the kernel harnesses
 
 def op_table(src, build, dflags):
     """{op name: C function} of an ops file, from the preprocessed text of its `const opdef_t ops_x[] = {...}` table"""
@@ -355,7 +361,7 @@ def dir_harnesses(build, kernels, dirs=None):
     def build_one(h):
         try:
             dflags = " ".join("-D%s=%s -DHAVE_NATIVE_mpn_%s=1" % (k.csym(f), k.sym(f), f) for f, k in sorted(h.fnmap.items()))
-            tag = sha(TOOLVER, hh, dflags, CC_BASE, *[k.obj for k in h.kernels()])
+            tag = sha(TOOLVER, hh, dflags, CC_BASE, open(ALIGN_C, "rb").read(), *[k.obj for k in h.kernels()])
             wd = os.path.join(cdir, "h-%s" % tag); os.makedirs(wd, exist_ok=True)
             metaf = os.path.join(wd, "meta.json"); exe = os.path.join(wd, "harness")
             ksym = {k.sym(f): k for f, k in h.fnmap.items()}
@@ -372,8 +378,8 @@ def dir_harnesses(build, kernels, dirs=None):
                     for op, fn in tab.items():
                         hit = sorted(x for x in rch.get(fn, ()) if x in ksym)
                         if hit: opsyms[op] = hit
-                cmd = "gcc -O1 -g -w %s %s %s %s/.libs/libmpir.a -lm -lpthread -o %s.tmp && mv %s.tmp %s" % (
-                    " ".join(base), " ".join(objs), " ".join(k.obj for k in h.kernels()), build, exe, exe, exe)
+                cmd = "gcc -O1 -g -w -Wl,--wrap=malloc,--wrap=calloc,--wrap=realloc,--wrap=free %s %s %s %s %s/.libs/libmpir.a -lm -lpthread -o %s.tmp && mv %s.tmp %s" % (
+                    ALIGN_C, " ".join(base), " ".join(objs), " ".join(k.obj for k in h.kernels()), build, exe, exe, exe)
                 rc, msg = _compile(cmd)
                 if rc != 0: raise vlib.BuildError("link harness for %s: %s" % (h.dir, msg))
                 for o in objs: os.unlink(o)
